@@ -20,13 +20,47 @@ CHUNK = 2
 def gen_cases(tier):
     for c in S.gen_cases(tier):
         yield c
+    yield ('entries',)
     for v, lvl, mode, n in S.boundaries():
         if tier == 'quick' and not (T.is_micro(v) or v <= 10 or v in (26, 27, 40)):
             continue
         yield ('boostpair', v, lvl, mode, n)
 
 
+def entries(acc):
+    """make_qr / make_micro must treat error and boost_error exactly like make(micro=False / True)"""
+    for mode in ('numeric', 'alphanumeric', 'byte', 'kanji'):
+        for n in list(range(1, 25)) + [40, 80]:
+            content, parts, eb = S.content_for(mode, n)
+            for lvl in (None, 'L', 'M', 'Q', 'H'):
+                for boost in (True, False):
+                    for name, fn, micro in (('make_qr', segno.make_qr, False), ('make_micro', segno.make_micro, True)):
+                        kw = {'mask': 0}
+                        if lvl is not None:
+                            kw['error'] = lvl
+                        if not boost:
+                            kw['boost_error'] = False
+                        try:
+                            a = fn(content, **kw)
+                            ra = (a.version, a.error)
+                        except ValueError:
+                            ra = 'refused'
+                        try:
+                            b = segno.make(content, micro=micro, **kw)
+                            rb = (b.version, b.error)
+                        except ValueError:
+                            rb = 'refused'
+                        acc.eval(('entry', name, mode, n, lvl, boost), nontrivial=ra != 'refused', outcome=(ra, rb), state=(name, mode, n, lvl, boost))
+                        if ra != rb:
+                            acc.violation('entry-point/%s' % name, '%s(<%d %s chars>, **%r) -> %r but make(micro=%r) -> %r' % (name, n, mode, kw, ra, micro, rb),
+                                          ('entries',))
+                        elif ra != 'refused' and not boost and lvl is not None and ra[1] != lvl:
+                            acc.violation('level/noboost/%s' % name, '%s(..., error=%r, boost_error=False) returned level %r' % (name, lvl, ra[1]), ('entries',))
+
+
 def run_case(case, acc):
+    if case[0] == 'entries':
+        return entries(acc)
     if case[0] == 'boostpair':
         _, v, lvl, mode, n = case
         for k in (n, n + 1, max(0, n - 1)):
